@@ -28,6 +28,9 @@ pub struct ServerProfile {
     /// does not parse (save session info); 2 = in front of one; 3 = behind a set-error-info PDU
     #[serde(default)]
     pub pack_deactivate: u8,
+    /// raw frames sent right before the licensing PDU (hostile / unusual servers: auto-detect requests, heartbeats ...)
+    #[serde(default)]
+    pub pre_license: Vec<Vec<u8>>,
 }
 
 impl ServerProfile {
@@ -56,6 +59,7 @@ impl ServerProfile {
             auto: true,
             post_activation: Vec::new(),
             pack_deactivate: 0,
+            pre_license: Vec::new(),
         }
     }
 }
